@@ -36,11 +36,16 @@ RULE = ("executions = (scenario, fault set): scenario = sink configuration (call
         "fixed path, pre-existing colliding files, restarts, external delete/replace) x operation list; for "
         "every scenario all single faults (thorough: also all pairs) over the N primitive calls it performs; "
         "non-trivial = at least one rotation or stop with compression/retention/collision executed or a fault "
-        "fired; distinct by (scenario, fault set)")
+        "fired; distinct by (scenario, fault set).  Round 5: + name sets with holes (subsets of the counters 1..6 for "
+        "rotation and archive-collision renames), watch with a replacement file that has content, a seeded sample of "
+        "fault pairs in the quick tier; + rename_path cases = (root, ext, ctime, set of existing paths) run through the "
+        "real generate_rename_path over a real directory (non-trivial = non-empty set); + report_race runs = two "
+        "threads failing at once on one sink, one suspended inside its error report (non-trivial = both faults fired)")
 TRUSTED = [
     "harness/fsshim.py: faults are OSError(EIO) raised instead of the primitive; partial writes are not injected",
     "retention policy and rotation predicate are oracles of the model (their decisions are read from the real run)",
     "codecs (gzip/bz2/lzma/tarfile/zipfile) are checked by decompression on every archive, not proved",
+    "harness speed: sysconfig.get_path is memoised in the harness process; executions of one scenario share one emptied scratch tree",
 ]
 ASSUMPTIONS = ["append mode (default)", "one sink per directory, no concurrent writer",
                "os.path.exists/isfile never raise (CPython swallows OSError there)"]
@@ -769,6 +774,22 @@ def run_monitors(sc, ex, idx, rec, pre_ids, env_deleted, faulted_run):
     for a, b in zip(runs, runs[1:]):
         if b[0] <= a[-1] and not (set(a) <= set(b) or set(b) <= set(a)):
             ex.monitors.append(("order_preserved", "files interleave: %r / %r" % (a[:10], b[:10]), idx))
+    # C18: a log file is compressed when it is closed at sink stop iff NO rotation is configured (fault-free runs)
+    if (not faulted_run and idx > 0 and rec["op"][0] == "s" and rec["res"] == "ok" and sc.get("comp") in CEXTS
+            and not (sc.get("real") or {}).get("rotation")):
+        before = ex.ops[idx - 1]["snap"]
+        if not sc["rot"]:
+            # files this sink has written messages to (a pre-existing file of another name is none of its business)
+            left = sorted(k for k, v in snap.items() if k.startswith("b_") and v[0].startswith("f:") and k in before
+                          and any(0 <= i < PRE for i in v[1]))
+            if left:
+                ex.monitors.append(("archive_roundtrip", "stop() of a sink without rotation left %s uncompressed (no "
+                                    "archive produced at the final stop)" % left, idx))
+        else:
+            new = sorted(k for k in snap if k.startswith("A_") and k not in before)
+            if new:
+                ex.monitors.append(("compression_only_at_rotation_or_final_stop", "stop() of a sink WITH a rotation "
+                                    "function produced %s" % new, idx))
     if not faulted_run and rec["op"][0] in ("w", "s", "i") and rec["res"] != "ok":
         ex.monitors.append(("sink_usable_after_any_fault", "fault-free run: call #%d reported %s" % (idx, rec["res"]), idx))
 
@@ -1200,6 +1221,144 @@ def rename_path_stream(ctx, drv):
 
 
 
+# ----------------------------------------------------------------------------- two threads failing at once
+class _GateStream:
+    """stands for sys.stderr: the thread named `gated` is suspended inside its first write() until released (the
+    pre-emption point is INSIDE the error report), everything written is kept"""
+
+    def __init__(self, gated):
+        import threading
+        self.gated, self.entered, self.release = gated, threading.Event(), threading.Event()
+        self._done, self._lock, self._buf = False, threading.Lock(), io.StringIO()
+
+    def write(self, text):
+        import threading
+        if threading.current_thread().name == self.gated and not self._done:
+            self._done = True
+            self.entered.set()
+            self.release.wait(20)
+        with self._lock:
+            self._buf.write(text)
+        return len(text)
+
+    def flush(self):
+        pass
+
+    def getvalue(self):
+        with self._lock:
+            return self._buf.getvalue()
+
+
+def report_race(sc, faults):
+    """ops of `sc` must be [w, w(1), w(1), w]: message 0 normally, messages 1 and 2 by two THREADS whose calls both
+    fail (injected faults), T1 being suspended inside its error report while T2 runs, message 3 normally, then the sink
+    is removed.  Returns (problems, info): every message must be readable from the directory or have ITS OWN report."""
+    import threading
+    from loguru._logger import Core, Logger
+    root = tempfile.mkdtemp(prefix="c08_")
+    logdir = os.path.join(root, *sc.get("dir", "logs").split("/"))
+    shim = Shim()
+    shim.fault_at = {k: getattr(errno_mod, e) for k, e in norm_faults(faults)}
+    state = {"rot": False}
+    shim.clock = lambda: clk_dt(0)
+    shim.ctime = lambda path: float(T0 + 5)
+
+    def rotation(message, file):
+        shim.prim("rotcall")
+        return state["rot"]
+
+    logger = Logger(core=Core(), exception=None, depth=0, record=False, lazy=False, colors=False, raw=False,
+                    capture=True, patchers=[], extra={})
+    stem = sc.get("stem", "app")
+    kwargs = {"format": "{message}", "catch": True, "rotation": rotation}
+    if sc.get("comp") in CEXTS:
+        kwargs["compression"] = sc["comp"]
+    gate = _GateStream("T1")
+    saved_err = sys.stderr
+    problems, info = [], {}
+    try:
+        make_pre(sc, logdir)
+        shim.install()
+        sys.stderr = gate
+        with shim.openers():
+            hid = logger.add(os.path.join(logdir, stem + ".log"), **kwargs)
+        logger.info(msg_text(sc, 0))
+        state["rot"] = True
+        t1 = threading.Thread(target=lambda: logger.info(msg_text(sc, 1)), name="T1")
+        t2 = threading.Thread(target=lambda: logger.info(msg_text(sc, 2)), name="T2")
+        t1.start()
+        info["t1_parked"] = gate.entered.wait(10)
+        t2.start()
+        t2.join(10)
+        info["t2_finished_while_t1_parked"] = not t2.is_alive()
+        gate.release.set()
+        t1.join(20)
+        t2.join(20)
+        if t1.is_alive() or t2.is_alive():
+            problems.append("a logging thread did not finish within 20 s")
+        state["rot"] = False
+        logger.info(msg_text(sc, 3))
+        shim.fault_at = {}
+        try:
+            logger.remove(hid)
+        except Exception as e:  # noqa: no fault is pending here: the sink must stop normally
+            problems.append("sink_usable_after_any_fault: remove() of the sink raised %r although no fault was pending "
+                            "(after two concurrent failed calls)" % (e,))
+        snap = snapshot(sc, logdir)
+        present = {i for _e, ids, _p in snap.values() for i in ids}
+        text = gate.getvalue()
+        reports = text.split("--- Logging error in Loguru Handler")[1:]
+        info["reports"] = len(reports)
+        info["fired"] = list(shim.faulted)
+        for i in range(4):
+            reported = any(("M%d:" % i) in r for r in reports)
+            if i not in present and not reported:
+                problems.append("faults_are_reported_not_propagated: message %d is in no file or archive and no error "
+                                "report names it (reports: %d, injected faults fired: %r; T1 was suspended inside its "
+                                "report while T2 failed)" % (i, len(reports), shim.faulted))
+    except Exception as e:  # noqa: nothing here may raise on a tree where the property holds (catch=True, no fault at add/remove)
+        problems.append("sink_usable_after_any_fault: the two-thread scenario raised %r" % (e,))
+    finally:
+        sys.stderr = saved_err
+        gate.release.set()
+        shim.uninstall()
+        shutil.rmtree(root, ignore_errors=True)
+    return problems, info
+
+
+def report_race_stream(ctx):
+    """class of seed C08-p (the reporting path must be per call): two threads fail on the same file sink at the same
+    time; fault kinds: rotation rename, re-creation open, compression opener / copy, source remove"""
+    rng = ctx.rng.fork("report-race")
+    variants = [(None, "rename"), ("gz", "copen"), ("zip", "ccopy"), (None, "open"), ("tar", "remove"), ("gz", "getctime")]
+    for comp, kind in variants if not ctx.quick else variants[:3] + [rng.choice(variants[3:])]:
+        sc = base_sc(comp=comp, ops=[W(), W(1), W(1), W()], dir=rng.choice(DIRS), stem=rng.choice(STEMS))
+        if kind == "getctime" and comp:
+            sc["pre"] = [["A_R_5_1_b_0", "a", [PRE + 1]]]
+        # where the chosen primitive sits in call 1, and – after call 1 failed there – in call 2 (sequential runs:
+        # T1 is suspended only after all its primitives, so the indices are those of the concurrent run)
+        ex0 = execute(sc)
+        tr = [(j, t.split("/")[0]) for j, t in enumerate(sum((r["trace"] for r in ex0.ops[:2]), []))]
+        base1 = len(ex0.ops[0]["trace"])
+        k1 = [j for j, t in tr if j >= base1 and t == kind]
+        if not k1:
+            continue
+        ex1 = execute(sc, ((k1[0], "EACCES"),))
+        n01 = len(ex1.ops[0]["trace"]) + len(ex1.ops[1]["trace"])
+        k2 = [n01 + j for j, t in enumerate(ex1.ops[2]["trace"]) if t.split("/")[0] == kind]
+        faults = [(k1[0], "EACCES")] + ([(k2[0], "EIO")] if k2 else [])
+        problems, info = report_race(sc, faults)
+        ctx.case(("report_race", comp, kind, sc["dir"], sc["stem"]), nontrivial=len(info.get("fired", [])) >= 2)
+        ctx.stat("report_race_runs")
+        ctx.stat("report_race_faults_fired:%d" % len(info.get("fired", [])))
+        if not info.get("t1_parked"):
+            ctx.stat("report_race_t1_never_reported")
+        for ptext in problems[:2]:
+            ctx.violation(ptext, {"stream": "report_race", "scenario": sc, "faults": [list(f) for f in faults]},
+                          kind="oracle")
+
+
+
 # ----------------------------------------------------------------------------- run
 def explore(ctx, scenarios, pairs, errno_sweep=1):
     """runs every scenario fault-free, then with every single fault – the errno of fault k rotates through
@@ -1257,6 +1416,26 @@ def _explore_one(ctx, si, sc, pairs, errno_sweep, errnos, execs, shared):
         for a, b in todo:
             f = ((a, eno(a)), (b, eno(a + b)))
             execs.append((sc, f, execute(sc, f)))
+
+
+def sample_pairs(ctx, scs, per_scenario, scenarios):
+    rng = ctx.rng.fork("quick-pairs")
+    out = []
+    pool = [sc for sc in scs if not (sc.get("rel") or sc.get("nofaults") or sc.get("monitors_only"))]
+    for _ in range(scenarios):
+        sc = rng.choice(pool)
+        shared = tempfile.mkdtemp(prefix="c08_")
+        try:
+            n = execute(sc, (), reuse_root=shared).nprims
+            for _j in range(per_scenario):
+                a = rng.below(max(n - 1, 1))
+                b = rng.range(a + 1, n + 2)
+                f = ((a, rng.choice(ERRNOS)), (b, rng.choice(ERRNOS)))
+                out.append((sc, f, execute(sc, f, reuse_root=shared)))
+                ctx.stat("quick_pair_executions")
+        finally:
+            shutil.rmtree(shared, ignore_errors=True)
+    return out
 
 
 def judge(ctx, execs, drv, prop):
@@ -1326,12 +1505,17 @@ def run(ctx):
                      errno_sweep=(0 if ctx.quick else 2))
     execs += explore(ctx, with_names(real_policy_scenarios(ctx.quick), shift=2), pairs=False, errno_sweep=0)
     execs += explore(ctx, with_names(hole_scenarios(ctx.quick, ctx.rng.fork("holes")), shift=4), pairs=False, errno_sweep=0)
+    if ctx.quick:
+        # quick tier: the thorough tier runs ALL pairs of faults; here a small seeded sample of pairs on three curated
+        # scenarios (failure during the recovery from a failure)
+        execs += sample_pairs(ctx, curated(), per_scenario=14, scenarios=3)
     ctx.exhaustive = False
     for sc, _f, ex in execs[:2]:
         ctx.sample({"scenario": sc, "line": ex.line})
     judge(ctx, execs, drv, PROP)
     close_fault_regression(ctx)
     rename_path_stream(ctx, drv)
+    report_race_stream(ctx)
 
 
 def close_fault_regression(ctx):
@@ -1355,6 +1539,14 @@ def close_fault_regression(ctx):
 
 def replay(ctx, rep):
     r = rep["replay"]
+    if r.get("stream") == "report_race":
+        problems, info = report_race(r["scenario"], [tuple(f) for f in r["faults"]])
+        print("scenario:", core.json.dumps(r["scenario"]))
+        print("faults:  ", r["faults"], " info:", info)
+        for ptext in problems:
+            print("ORACLE:", ptext)
+        print("REPRODUCED" if problems else "not reproduced")
+        return 1 if problems else 0
     if r.get("stream") == "rename_path":
         case = r["case"]
         got = rename_impl(case)
